@@ -48,6 +48,16 @@ RICH = {
         "/w/main.td": 'class B;\ndefset list<B> all = {\n  include "members.td"\n  def own : B;\n}\ndef after : B;\n',
         "/w/members.td": '// the members, declared in a header that is longer than the file that includes it .............................\ndef m1 : B;\ndef m2 : B { int x = 1; }\nclass Inner { int y = 2; }\n',
     },
+    # a malformed defset (no "=") in a short header, declarations in the longer file that includes it
+    "defset-noeq": {
+        "/w/main.td": 'include "h.td"\ndef later1 : B;\ndef later_with_a_long_name_2 : B { int x = 1; }\n// ünïcödé ünïcödé ünïcödé\ndef later3 : B;\n',
+        "/w/h.td": 'class B;\ndefset list<B> All;\n',
+    },
+    # named template arguments: quoted names (also non-ASCII), unknown names, a name given twice
+    "named-args": {
+        "/w/main.td": 'class A<int n, string s = "d">;\ndef d1 : A<"größ" = 1, n = 2>;\ndef d2 : A<"n" = 1, "n" = 2>;\ndef d3 : A<"é" = 1>;\n'
+                      'def d4 : A<n = 1, "sé" = "x">;\ndef d5 : A<zz = 1, n = 1>;\ndef d6 : A<1, "日本" = "y">;\ndefvar v = A<"ß" = 1>;\n',
+    },
     "stress": {
         "/w/main.td": 'class A : A { let x = 1; }\nclass B;\nclass B<int n> : B { int n2 = n; }\nclass C<int C> { int C2 = C; }\ndef C : C<1>;\ndef d { int d = 1; int e = d; }\nclass F { int f = f; }\ndef : F;\ndef : F { let f = 2; }\ndefm : Nope<1>;\ndefm named : Nope;\nmulticlass M2 : M2 { def x; }\nmulticlass M3<int a> : M2 { defm y : M3<a>; }\nlet nosuch = 1 in def q;\nclass G<int g = g> ;\nclass H : G<1, 2, 3>, G<"s">, Missing<1>;\ndef h { int a = !add(1); int b = !add(1, "s"); int c = nope; int e = h.a.b; list<int> l = [1, "a"]; int s = l[0][1]; }\nforeach i = i in def r#i;\nforeach k = [] in def;\ndefset list<Missing> ds = { def in_ds; }\ndefset int bad = { }\ndefvar v = v;\ndefvar v = 1;\nassert v, v;\n',
     },
